@@ -147,8 +147,12 @@ def pushLoop (s : State) (token : Token) (c : ConnId) : List ReqId → State × 
     | _ => pushLoop s token c rest
 
 /-- `PoolInner::push` (with the `max_idle_per_host` bound) -/
+def clearMarker (s : State) (token : Token) (c : ConnId) : State :=
+  -- only a shareable connection completes the attempt other checkouts are waiting for
+  if canShare s c then { s with connecting := s.connecting.erase token } else s
+
 def push (s : State) (token : Token) (c : ConnId) : State :=
-  let s := { s with connecting := s.connecting.erase token }
+  let s := clearMarker s token c
   let (s, delivered) := pushLoop s token c (s.waiting token)
   if delivered then s
   else if (s.idle token).length < s.cfg.maxIdle then
@@ -174,24 +178,32 @@ def idlePop (s : State) : List (ConnId × Nat) → Option ConnId × List (ConnId
 def noteDropped (s : State) (cs : List ConnId) : State :=
   { s with dropped := (cs.filter (fun c => !canShare s c)) ++ s.dropped }
 
-/-- `Pool::checkout` (including `PoolInner::pop`, which leaves a clone of a shareable connection idle) -/
+/-- `Pool::checkout` when `PoolInner::pop` produced connection `c` (a clone of a shareable connection
+    stays in the idle list). -/
+def issueFound (s : State) (r : ReqId) (k : KeyId) (mux : Bool) (t : Token) (c : ConnId) : State :=
+  let s := if canShare s c then { s with idle := upd s.idle t ((c, s.now) :: s.idle t) } else s
+  { s with chan := upd s.chan r .txGone,
+           co := upd s.co r (some { key := k, token := t, mux, waiter := .idle, inner := .connected, conn := some c }) }
+
+/-- `Pool::checkout` when nothing usable is idle: queue a waiter; wait for the attempt in progress,
+    or start one (placing the marker for a multiplexed request). -/
+def issueMissing (s : State) (r : ReqId) (k : KeyId) (mux : Bool) (t : Token) : State :=
+  let s := { s with waiting := upd s.waiting t (s.waiting t ++ [r]), chan := upd s.chan r .empty }
+  if s.connecting.contains t then
+    { s with co := upd s.co r (some { key := k, token := t, mux, waiter := .connecting, inner := .waiting }) }
+  else
+    let s := if mux then { s with connecting := t :: s.connecting } else s
+    { s with co := upd s.co r (some { key := k, token := t, mux, waiter := .idle, marker := mux,
+                                       inner := if s.cfg.cap then .delayDrop else .connecting }) }
+
+/-- `Pool::checkout` -/
 def issue (s : State) (r : ReqId) (k : KeyId) (mux : Bool) : State :=
-  let (s, t) := tokenOf s k
-  let (got, rest, gone) := idlePop s (s.idle t)
-  let s := noteDropped { s with idle := upd s.idle t rest } gone
-  match got with
-  | some c =>
-    let s := if canShare s c then { s with idle := upd s.idle t ((c, s.now) :: s.idle t) } else s
-    { s with chan := upd s.chan r .txGone,
-             co := upd s.co r (some { key := k, token := t, mux, waiter := .idle, inner := .connected, conn := some c }) }
-  | none =>
-    let s := { s with waiting := upd s.waiting t (s.waiting t ++ [r]), chan := upd s.chan r .empty }
-    if s.connecting.contains t then
-      { s with co := upd s.co r (some { key := k, token := t, mux, waiter := .connecting, inner := .waiting }) }
-    else
-      let s := if mux then { s with connecting := t :: s.connecting } else s
-      { s with co := upd s.co r (some { key := k, token := t, mux, waiter := .idle, marker := mux,
-                                         inner := if s.cfg.cap then .delayDrop else .connecting }) }
+  let tk := tokenOf s k
+  let pr := idlePop tk.1 (tk.1.idle tk.2)
+  let s1 := noteDropped { tk.1 with idle := upd tk.1.idle tk.2 pr.2.1 } pr.2.2
+  match pr.1 with
+  | some c => issueFound s1 r k mux tk.2 c
+  | none => issueMissing s1 r k mux tk.2
 
 /-- receiver closed and dropped (`Waiting::close`, or the field drop of a dying checkout) -/
 def dropRx (s : State) (r : ReqId) : State :=
@@ -217,23 +229,32 @@ def cancelConnection (s : State) (t : Token) : State :=
     { s with waiting := upd s.waiting t [] }
   else s
 
+/-- `PinnedDrop`, first part: a connection taken from the pool that was never handed out goes back
+    (unless it can be shared: then it never left the pool). -/
+def returnUnused (s : State) (c : Checkout) : State :=
+  match c.conn with
+  | some cid =>
+    if isOpenC s cid && !canShare s cid then push s c.token cid
+    else if canShare s cid then s else { s with dropped := cid :: s.dropped }
+  | none => s
+
+/-- The marker's owner going away without a delayed drop cancels the marker. -/
+def cancelIfOwner (s : State) (c : Checkout) : State :=
+  if c.marker then cancelConnection s c.token else s
+
 /-- `PinnedDrop for Checkout` followed by the field drops -/
 def dropCheckout (s : State) (r : ReqId) : State :=
   match s.co r with
   | none => s
   | some c =>
     if !c.alive then s else
-    -- an unused, non-shareable connection taken from the pool goes back
-    let s := match c.conn with
-      | some cid => if isOpenC s cid && !canShare s cid then push s c.token cid
-                    else if canShare s cid then s else { s with dropped := cid :: s.dropped }
-      | none => s
+    let s := returnUnused s c
     if c.inner = .delayDrop then
       let s := spawn s (.delayed r)
       let s := dropRx s r
       { s with co := upd s.co r (some { c with alive := false, waiter := .noPool, inner := .delayed, conn := none }) }
     else
-      let s := if c.marker then cancelConnection s c.token else s
+      let s := cancelIfOwner s c
       let s := dropRx s r
       { s with co := upd s.co r (some { c with alive := false, waiter := .noPool, conn := none, marker := false }) }
 
@@ -242,9 +263,20 @@ def registerConnected (s : State) (c : Checkout) (cid : ConnId) : State × Poole
   if canShare s cid then (push s c.token cid, ⟨cid, 0, false⟩)
   else (s, ⟨cid, c.token, true⟩)
 
+/-- The protocol handshake produced a connection: HTTP/2 if the request asked for it or ALPN chose it. -/
+def newConn (s : State) (c : Checkout) (alpn : Bool) : State × ConnId :=
+  ({ s with nextConn := s.nextConn + 1,
+            conns := upd s.conns s.nextConn (some { origin := c.key, kind := if c.mux || alpn then Kind.h2 else Kind.h1 }) },
+   s.nextConn)
+
 /-- `checked_out` for a connection that came out of the pool -/
 def checkedOut (s : State) (c : Checkout) (cid : ConnId) : Pooled :=
   if canShare s cid then ⟨cid, 0, false⟩ else ⟨cid, c.token, true⟩
+
+/-- `Connector::poll_connector`, first state: the transport is asked to connect exactly once. -/
+def startDial (s : State) (r : ReqId) : State :=
+  if (s.dial r).started then s
+  else { s with dial := upd s.dial r { s.dial r with started := true }, dialCount := s.dialCount + 1 }
 
 inductive PollRes | pending | got (p : Pooled) | err (k : Nat) | panic
 deriving Repr, DecidableEq
@@ -283,8 +315,7 @@ def pollCheckout (s : State) (r : ReqId) (c : Checkout) : State × Checkout × P
         (s, c, .got (checkedOut s c cid))
     | _ =>
       let d := s.dial r
-      let s := if d.started then s
-               else { s with dial := upd s.dial r { d with started := true }, dialCount := s.dialCount + 1 }
+      let s := startDial s r
       match d.outcome with
       | none => (s, c, .pending)
       | some out =>
@@ -292,9 +323,7 @@ def pollCheckout (s : State) (r : ReqId) (c : Checkout) : State × Checkout × P
         let c := { c with inner := .connected, waiter := .noPool }
         match out with
         | .ok alpn =>
-          let cid := s.nextConn
-          let kind := if c.mux || alpn then Kind.h2 else Kind.h1
-          let s := { s with nextConn := cid + 1, conns := upd s.conns cid (some { origin := c.key, kind }) }
+          let (s, cid) := newConn s c alpn
           let (s, p) := registerConnected s c cid
           (s, c, .got p)
         | .failConnect => (s, c, .err 1)
@@ -333,38 +362,42 @@ def removeTask (s : State) (i : Nat) : State := { s with tasks := s.tasks.filter
 /-- Poll task `i` once. -/
 def taskOf (s : State) (i : Nat) : Option Task := (s.tasks.find? (·.1 == i)).map (·.2)
 
+/-- One poll of a `WhenReady` task. -/
+def runWhenReady (s : State) (i : Nat) (c : ConnId) (t : Token) (hp : Bool) : State :=
+  match s.conns c with
+  | none => removeTask s i
+  | some k =>
+    if !k.isOpen then
+      -- `poll_ready` errs; the handle is dropped
+      { (removeTask s i) with dropped := c :: s.dropped }
+    else if k.busy then s                          -- pending, stays parked
+    else
+      let s := removeTask s i
+      if t != 0 && hp then push s t c else { s with dropped := c :: s.dropped }
+
+/-- One poll of a delayed-drop checkout task. -/
+def runDelayed (s : State) (i : Nat) (r : ReqId) : State :=
+  match s.co r with
+  | none => removeTask s i
+  | some c =>
+    let res := pollCheckout s r c
+    let s := { res.1 with co := upd res.1.co r (some res.2.1) }
+    match res.2.2 with
+    | .pending => s
+    | .got p =>
+      -- the delayed checkout is dropped, then the connection it produced
+      let s := cancelIfOwner (removeTask s i) res.2.1
+      let s := { s with co := upd s.co r (some { res.2.1 with marker := false }) }
+      dropPooled s p
+    | _ =>
+      let s := cancelIfOwner (removeTask s i) res.2.1
+      { s with co := upd s.co r (some { res.2.1 with marker := false }) }
+
 def runTask (s : State) (i : Nat) : State :=
   match taskOf s i with
   | none => s
-  | some (.whenReady c t hp) =>
-    match s.conns c with
-    | none => removeTask s i
-    | some k =>
-      if !k.isOpen then
-        -- `poll_ready` errs; the handle is dropped
-        { (removeTask s i) with dropped := c :: s.dropped }
-      else if k.busy then s                          -- pending, stays parked
-      else
-        let s := removeTask s i
-        if t != 0 && hp then push s t c else { s with dropped := c :: s.dropped }
-  | some (.delayed r) =>
-    match s.co r with
-    | none => removeTask s i
-    | some c =>
-      let (s, c, res) := pollCheckout s r c
-      let s := { s with co := upd s.co r (some c) }
-      match res with
-      | .pending => s
-      | .got p =>
-        let s := removeTask s i
-        -- the delayed checkout is dropped, then the connection it produced
-        let s := if c.marker then cancelConnection s c.token else s
-        let s := { s with co := upd s.co r (some { c with marker := false }) }
-        dropPooled s p
-      | _ =>
-        let s := removeTask s i
-        let s := if c.marker then cancelConnection s c.token else s
-        { s with co := upd s.co r (some { c with marker := false }) }
+  | some (.whenReady c t hp) => runWhenReady s i c t hp
+  | some (.delayed r) => runDelayed s i r
 
 /-- Run notified tasks in FIFO order until the queue is empty (`fuel` bounds the work). -/
 def runAll : Nat → State → State
